@@ -62,6 +62,7 @@ type State struct {
 	epoch int
 	aepoch int // epoch of the atomic families (atomicval$, atomic$...)
 	sepoch int // epoch of the shared families under interference (chan$, smap$, ghost$)
+	kept   map[string]int // `modifies *!pkg`: package name -> epoch its (not yet referenced) heaps still live in
 }
 
 func (s *State) clone() *State {
@@ -74,6 +75,12 @@ func (s *State) clone() *State {
 	}
 	for k, v := range s.armed {
 		n.armed[k] = v
+	}
+	if len(s.kept) > 0 {
+		n.kept = make(map[string]int, len(s.kept))
+		for k, v := range s.kept {
+			n.kept[k] = v
+		}
 	}
 	return n
 }
@@ -248,6 +255,11 @@ func (c *FnCtx) initHeap(st *State, name string, sort Sort) Term {
 	}
 	if pinnedHeap(name) {
 		epoch = 0
+	}
+	for x, ep := range st.kept {
+		if strings.HasPrefix(name, x+".") || strings.HasPrefix(name, "global$"+x+".") {
+			epoch = ep
+		}
 	}
 	return c.vc.Const(fmt.Sprintf("H%d$%s", epoch, name), sort)
 }
@@ -839,6 +851,7 @@ func (c *FnCtx) mergeStates(ins []edgeState) *State {
 		}
 		c.epochs++
 		out.epoch = c.epochs
+		out.kept = nil
 		out.aepoch = c.epochs
 		if out.sepoch > 0 {
 			out.sepoch = c.epochs
